@@ -1046,6 +1046,123 @@ fn check_c18() {
     t!(usize, [0u64, 1, 4294967296, 4294967301, 900719925474099]); t!(isize, [0u64, 1, 4294967296, 4294967301, 900719925474099]);
 }
 
+
+// ------------------------------------------------------------------------------------------------ C05 (bounded stand-in / witness search)
+/// the property statement, read directly: [v|V] blanks* major "." minor "." patch [["-"] ident ("." ident)*] ["+" ident ("." ident)*] blanks* <end>
+/// (the optional hyphen, the v prefix and the blanks are the loose spellings the crate accepts); components are non-empty digit runs
+/// not above MAX_SAFE_INTEGER, identifiers non-empty runs over [0-9A-Za-z-]; the whole text is at most 256 bytes.  Greedy, left to right.
+fn ref_version(t: &str) -> Option<(u64, u64, u64, Vec<Id>, Vec<Id>)> {
+    if t.len() > 256 { return None; }
+    let c: Vec<char> = t.chars().collect();
+    let mut i = 0usize;
+    if i < c.len() && (c[i] == 'v' || c[i] == 'V') { i += 1; }
+    while i < c.len() && (c[i] == ' ' || c[i] == '\t') { i += 1; }
+    fn num(c: &[char], i: &mut usize) -> Option<u64> {
+        let st = *i;
+        while *i < c.len() && c[*i].is_ascii_digit() { *i += 1; }
+        if *i == st { return None; }
+        let s: String = c[st..*i].iter().collect();
+        let v: u128 = if s.len() > 30 { u128::MAX } else { s.parse().ok()? };
+        if v > 900_719_925_474_099 { None } else { Some(v as u64) }
+    }
+    fn ident(c: &[char], i: &mut usize) -> Option<Id> {
+        let st = *i;
+        while *i < c.len() && (c[*i].is_ascii_alphanumeric() || c[*i] == '-') { *i += 1; }
+        if *i == st { return None; }
+        let s: String = c[st..*i].iter().collect();
+        if s.chars().all(|x| x.is_ascii_digit()) { if let Ok(n) = s.parse::<u64>() { return Some(Id::N(n)); } }
+        Some(Id::A(s))
+    }
+    fn idents(c: &[char], i: &mut usize) -> Option<Vec<Id>> {
+        let mut out = vec![ident(c, i)?];
+        loop {
+            let save = *i;
+            if *i < c.len() && c[*i] == '.' { *i += 1; } else { break; }
+            match ident(c, i) { Some(x) => out.push(x), None => { *i = save; break; } }
+        }
+        Some(out)
+    }
+    let ma = num(&c, &mut i)?;
+    if i < c.len() && c[i] == '.' { i += 1; } else { return None; }
+    let mi = num(&c, &mut i)?;
+    if i < c.len() && c[i] == '.' { i += 1; } else { return None; }
+    let pa = num(&c, &mut i)?;
+    let mut pre = vec![];
+    let mut build = vec![];
+    {
+        let save = i;
+        if i < c.len() && c[i] == '-' { i += 1; }
+        match idents(&c, &mut i) { Some(p) => pre = p, None => { i = save; } }
+    }
+    if i < c.len() && c[i] == '+' {
+        let save = i;
+        i += 1;
+        match idents(&c, &mut i) { Some(b) => build = b, None => { i = save; } }
+    }
+    while i < c.len() && (c[i] == ' ' || c[i] == '\t') { i += 1; }
+    if i != c.len() { return None; }
+    Some((ma, mi, pa, pre, build))
+}
+fn ids_of(v: &[Identifier]) -> Vec<Id> { v.iter().map(|i| match i { Identifier::Numeric(n) => Id::N(*n), Identifier::AlphaNumeric(s) => Id::A(s.clone()) }).collect() }
+fn c05_one(t: &str) {
+    let got = vparse(t);
+    let want = ref_version(t);
+    match (&got, &want) {
+        (Ok(v), Some((a, b, c, p, bd))) => {
+            if v.major != *a || v.minor != *b || v.patch != *c || ids_of(&v.pre_release) != *p || ids_of(&v.build) != *bd {
+                fail("C05", "the returned fields are the denoted numbers and identifiers", format!("{:?}", t), format!("parsed as `{}` (pre {:?} build {:?}), the text denotes {}.{}.{} pre {:?} build {:?}", v, v.pre_release, v.build, a, b, c, p, bd));
+            }
+        }
+        (Err(_), None) => {}
+        (Ok(v), None) => fail("C05", "Version::parse accepts only whole well-formed version strings", format!("{:?}", t), format!("accepted as `{}` (pre {:?} build {:?})", v, v.pre_release, v.build)),
+        (Err(e), Some(_)) => fail("C05", "every string of the canonical shape is accepted", format!("{:?}", t), format!("rejected: {}", e)),
+    }
+}
+fn check_c05(level: u32, seed: u64) {
+    // the inputs the statement names
+    for t in ["1.2.3.4", "1.2.3 foo", "1.2.3-", "1.2.3+", "1.2.3-a..b", "1.2.3", "v1.2.3", "V 1.2.3 ", "1.2.3-alpha.1+build.5", "01.002.0003", "1.2.3alpha", "1.2.3--", "1.2.3-+b", "1.2.3+b-c", "1.2.3-a+", "1.2.3+a+b", "1.2.3-a-b.c-",
+              "900719925474099.0.0", "900719925474100.0.0", "0.0.99999999999999999999", "1.2.3-99999999999999999999", "1.2.3-18446744073709551615", "1.2.3-18446744073709551616", "1.2.3-\u{141}", "1.2.3\u{131}", "1.2.3+\u{141}.1", "1.2.3-a\u{e9}", "\u{661}.2.3",
+              "1.2.3\n", "1.2.3\r\n", "\n1.2.3", "1.2.3\u{a0}", "1.2.3 \t ", " \t1.2.3", " v1.2.3", "vv1.2.3", "v\t1.2.3", "1. 2.3", "1.2 .3", "1.2.3 -a", "1.2.3- a", "1.2.3-a .b", "1.2.3+ b", "=1.2.3", "1.2.x", "1.2", "1", "", " ", "v", "1.2.3.", "1.2.3..", ".1.2.3", "1..2.3", "+1.2.3", "-1.2.3", "1.2.3-a.", "1.2.3+a.", "1.2.3-.a", "1.2.3+.a"] {
+        c05_one(t);
+    }
+    for n in [240usize, 249, 250, 251, 252, 256, 257] { c05_one(&format!("1.2.3-{}", "a".repeat(n))); c05_one(&format!("1.2.3{}", " ".repeat(n))); c05_one(&format!("{}1.2.3", " ".repeat(n))); c05_one(&format!("1.2.3+{}", "0.".repeat(n / 2))); }
+    // every string up to length 5 over an alphabet of token classes, alone and after prefixes that reach the later states of the grammar
+    let alpha: Vec<char> = "10.-+a vZ\u{141}\t9".chars().collect();
+    let maxlen = if level > 0 { 6 } else { 5 };
+    let mut frontier: Vec<String> = vec![String::new()];
+    let prefixes = ["", "1.2.", "1.2.3", "1.2.3-", "1.2.3-a", "1.2.3+", "1.2.3-a+b", "v "];
+    let mut count = 0u64;
+    for _ in 0..maxlen {
+        let mut next = Vec::with_capacity(frontier.len() * alpha.len());
+        for s in &frontier { for c in &alpha { let mut t = s.clone(); t.push(*c); next.push(t); } }
+        for s in &next {
+            for p in prefixes.iter() {
+                if !p.is_empty() && s.chars().count() > 4 { continue; }
+                c05_one(&format!("{}{}", p, s));
+                count += 1;
+            }
+        }
+        frontier = next;
+    }
+    // canonical versions with one edit (insert / delete / replace / append), random, seeded
+    let mut r = Rng(seed.wrapping_mul(0x9E3779B97F4A7C15) ^ 0xC05);
+    let edits: Vec<char> = "10.-+aZ v\t\u{141}x*~^=<>|,;_/\\\n".chars().collect();
+    let n = if level > 0 { 200000 } else { 30000 };
+    for _ in 0..n {
+        let k = K { ma: gen_num(&mut r), mi: gen_num(&mut r), pa: gen_num(&mut r), pre: if r.below(2) == 0 { gen_pre(&mut r) } else { vec![] } };
+        let mut t = fmt_key(&k);
+        if r.below(2) == 0 { t.push('+'); t.push_str(&gen_pre(&mut r).iter().map(fmt_id).collect::<Vec<_>>().join(".")); }
+        c05_one(&t);
+        let cs: Vec<char> = t.chars().collect();
+        let pos = r.below(cs.len() as u64 + 1) as usize;
+        let e = edits[r.below(edits.len() as u64) as usize];
+        let mut m: Vec<char> = cs.clone();
+        match r.below(4) { 0 => m.insert(pos, e), 1 => { if pos < m.len() { m.remove(pos); } }, 2 => { if pos < m.len() { m[pos] = e; } }, _ => m.push(e) }
+        c05_one(&m.iter().collect::<String>());
+    }
+    let _ = count;
+}
+
 fn main() {
     let args: Vec<String> = std::env::args().collect();
     let prop = args.get(1).map(|s| s.as_str()).unwrap_or("");
@@ -1056,6 +1173,7 @@ fn main() {
     match prop {
         "C01" | "C02" | "C03" => { check_npm(prop, level); check_npm_random(prop, seed, if level > 0 { 60000 } else { 6000 }); }
         "DUMP" => { dump_random(seed, 400); return; }
+        "C05" => check_c05(level, seed),
         "C04" => check_c04(),
         "C16" => check_c16(),
         "C07" | "C08" | "C09" | "C10" | "C15" => check_setops(prop),
